@@ -32,6 +32,9 @@ func ConfigYAML(c Case, root string, addr map[string]string) string {
 	if c.Parallel != 0 {
 		fmt.Fprintf(&sb, "  parallel: %d\n", c.Parallel)
 	}
+	if c.DefTimeout != "" {
+		fmt.Fprintf(&sb, "  timeout: %s\n", c.DefTimeout)
+	}
 	sb.WriteString("  skipDockerConfig: true\n")
 	sb.WriteString("scripts:\n")
 	for i, s := range c.Scripts {
